@@ -4,8 +4,9 @@ import vlib, cachefam
 
 
 def run_cache_property(prop, tier, seed, mcs, fams, nquick, nthorough, level, rule, assumptions, extra_cov=None,
-                       extra_runs=None):
+                       extra_runs=None, traps=None):
     t0 = time.time()
+    vlib.go_build("cachedrv")  # once, before the parallel replays (rebuilt from /repo's working tree)
     viol = []
     notes = []
     states = transitions = 0
@@ -29,8 +30,11 @@ def run_cache_property(prop, tier, seed, mcs, fams, nquick, nthorough, level, ru
     sample = None
     kinds = {}
     seen_beh = set()
-    for i, f in enumerate(fams(tier)):
-        r = cachefam.run_family(f, n, seed * 1000 + i)
+    from concurrent.futures import ThreadPoolExecutor
+    flist = list(fams(tier))
+    with ThreadPoolExecutor(max_workers=6) as ex:
+        results = list(ex.map(lambda t: cachefam.run_family(t[1], n, seed * 1000 + t[0]), enumerate(flist)))
+    for f, r in zip(flist, results):
         traces += r["behaviours"]
         lines += r["consumed"]
         for k, v in r["kinds"].items():
@@ -41,12 +45,36 @@ def run_cache_property(prop, tier, seed, mcs, fams, nquick, nthorough, level, ru
         for p in r["problems"]:
             if prop in p["props"]:
                 path = vlib.save_replay(prop, "%s-%s-seed%d.json" % (f["name"], vlib.digest(p["replay_input"]), seed),
-                                        {"kind": "cachedrv", "problem": {k: p[k] for k in ("props", "cats", "line", "event", "context", "model")},
+                                        {"kind": "cachedrv", "problem": {k: p.get(k) for k in ("props", "cats", "line", "event", "context", "model", "goroutines")},
                                          "input": p["replay_input"]})
                 viol.append(path)
             else:
                 notes.append("family %s: first mismatch at line %d concerns %s (%s), not %s; lines after it were not judged" %
                              (f["name"], p["line"], ",".join(p["props"]), ",".join(p["cats"]), prop))
+    trapres = []
+    if traps is None:
+        import importlib
+        traps = getattr(importlib.import_module("props." + prop), "traps", None)
+    tlist = list(traps(tier) if traps else [])
+    with ThreadPoolExecutor(max_workers=3) as ex:
+        tresults = list(ex.map(lambda tf: cachefam.run_traps(tf, 8 if tier == "quick" else 60, seed,
+                                                             timeout=25 if tier == "quick" else 400, workers=5), tlist))
+    for tf, r in zip(tlist, tresults):
+        traces += r["behaviours"]
+        lines += r["consumed"]
+        for k, v in r["kinds"].items():
+            kinds[k] = kinds.get(k, 0) + v
+        trapres.append({"family": tf["name"], "behaviours": r["behaviours"], "windows_reached": r["traps_hit"],
+                        "lines": r["lines"], "consumed": r["consumed"]})
+        for p in r["problems"]:
+            if prop in p["props"]:
+                path = vlib.save_replay(prop, "%s-%s-seed%d.json" % (tf["name"], vlib.digest(p["replay_input"]), seed),
+                                        {"kind": "cachedrv", "problem": {k: p.get(k) for k in ("props", "cats", "line", "event", "context", "model", "goroutines")},
+                                         "input": p["replay_input"]})
+                viol.append(path)
+            else:
+                notes.append("trap family %s: first mismatch at line %d concerns %s (%s), not %s" %
+                             (tf["name"], p["line"], ",".join(p["props"]), ",".join(p["cats"]), prop))
     for x in (extra_runs or []):
         xr = x(tier, seed)
         viol += xr.get("violations", [])
@@ -59,7 +87,7 @@ def run_cache_property(prop, tier, seed, mcs, fams, nquick, nthorough, level, ru
     cov = {"states": max(states, 1), "transitions": max(transitions, 1), "traces_validated_against_impl": traces,
            "samples": [sample] if sample else [mcres[:1]],
            "evaluations": lines, "distinct_nontrivial": len(kinds),
-           "rule": rule, "model_checking": mcres, "replay_families": famres, "trace_line_kinds": kinds,
+           "rule": rule, "model_checking": mcres, "replay_families": famres, "targeted_families": trapres, "trace_line_kinds": kinds,
            "effective_steps": nontrivial, "notes": notes}
     if extra_cov:
         cov.update(extra_cov)
@@ -76,7 +104,7 @@ def replay_file(prop, path):
     fam = None
     import props.C01 as c01, props.C12 as c12, props.C13 as c13, props.C14 as c14
     for mod in (c01, c12, c13, c14):
-        for f in mod.fams("thorough"):
+        for f in mod.fams("thorough") + cachefam.trap_families("memory") + cachefam.trap_families("file"):
             if f["name"] == inp.get("family"):
                 fam = f
     if fam is None:
